@@ -1,6 +1,7 @@
 package main
 
 import (
+	"errors"
 	"bytes"
 	"crypto/sha256"
 	"encoding/base64"
@@ -88,6 +89,8 @@ func opMiDec(args []Sx) Sx {
 			rd = iotest.DataErrReader(rd)
 		case "half":
 			rd = iotest.HalfReader(rd)
+		case "ioerr": // the source fails (not with EOF) after delivering the stream
+			rd = io.MultiReader(rd, iotest.ErrReader(errors.New("injected read fault")))
 		}
 	}
 	d, err := enc.NewDecoder(rd, digest, maxrs)
